@@ -51,6 +51,14 @@ func main() {
 		fmt.Println(strings.Join(ids, " "))
 		return
 	}
+	multi := strings.Split(*propID, ",")
+	if len(multi) > 1 {
+		if !*noEvidence {
+			fmt.Println("several properties in one run are supported in control mode (-no-evidence) only")
+			os.Exit(2)
+		}
+		*propID = multi[0]
+	}
 	p := props[*propID]
 	if p == nil {
 		fmt.Printf("unknown property %q\n", *propID)
@@ -117,6 +125,31 @@ func main() {
 		})
 		for _, o := range a.obs {
 			fmt.Println(o.Verdict, o.Detail)
+		}
+		return
+	}
+	if len(multi) > 1 {
+		// control mode over several properties: the program is loaded once, every property's rules run on a
+		// fresh obligation list; lines are prefixed with the property
+		for _, id := range multi {
+			q := props[id]
+			if q == nil {
+				fmt.Printf("unknown property %q\n", id)
+				os.Exit(2)
+			}
+			a.obs, a.floors, a.info, a.seenKeys, a.curRule, a.prop = nil, map[string]int{}, map[string]any{}, map[string]int{}, "", q
+			q.Run(a)
+			n := 0
+			for _, o := range a.obs {
+				if o.Verdict != Discharged {
+					fmt.Printf("[%s] CONTROL-FAIL rule=%s construct=%s verdict=%s %s\n", id, o.Rule, o.Construct, o.Verdict, firstLine(o.Detail))
+					n++
+				}
+			}
+			for _, o := range a.floorFailures() {
+				fmt.Printf("[%s] CONTROL-FLOOR construct=%s %s\n", id, o.Construct, firstLine(o.Detail))
+			}
+			fmt.Printf("[%s] CONTROL-SUMMARY failing=%d total=%d\n", id, n, len(a.obs))
 		}
 		return
 	}
